@@ -355,9 +355,9 @@ func init() {
 		}
 		return &vf.Check{
 			ID: "C19", Level: "model_checking",
-			Rule: "every program of the bounded space, rendered in every layout, is delivered through every route to the real reader/evaluator; result (or error kind and thrown payload), ordered effect trace and final bindings of x, y must equal those of the cursor-free AST built from Go; non-trivial = program with effects",
+			Rule:        "every program of the bounded space, rendered in every layout, is delivered through every route to the real reader/evaluator; result (or error kind and thrown payload), ordered effect trace and final bindings of x, y must equal those of the cursor-free AST built from Go; non-trivial = program with effects",
 			Assumptions: []string{"load-file always returns nil, so that route is compared on error, trace and bindings", "REPL returns the printed result, compared as printed text with map order canonicalised"},
-			Families: []*vf.Family{fam},
+			Families:    []*vf.Family{fam},
 		}
 	})
 }
